@@ -227,7 +227,7 @@ func (r *Repository) setWorktreeAndStoragePaths() error {
 	return setConfigWorktree(r, r.wt, fs.Filesystem())
 }
 
-func createDotGitFile(worktree, storage billy.Filesystem) error {
+func createDotGitFile(worktree, storage billy.Filesystem) (err error) {
 	path, err := filepath.Rel(worktree.Root(), storage.Root())
 	if err != nil {
 		path = storage.Root()
@@ -243,7 +243,7 @@ func createDotGitFile(worktree, storage billy.Filesystem) error {
 		return err
 	}
 
-	defer func() { _ = f.Close() }()
+	defer ioutil.CheckClose(f, &err)
 	_, err = fmt.Fprintf(f, "gitdir: %s\n", path)
 	return err
 }
